@@ -53,7 +53,10 @@ class Scheduler(object):
 
     def reset(self):
         self.sources = {}
-        self._ids = itertools.count(1)
+        # source ids are never reused within a process (as with the real GLib): objects of an earlier world may
+        # still call source_remove() from a finaliser, which must not hit a source of the current world
+        if not hasattr(self, '_ids'):
+            self._ids = itertools.count(1)
         self._seq = itertools.count(1)
         self.now_ms = 0
         self.escapes = []  # (source name, exception) that escaped a callback
